@@ -149,7 +149,7 @@ func CheckMain(prop, tier string) int {
 		path := filepath.Join(VerifDir(), "replays", fmt.Sprintf("%s-%d.json", prop, r.Seed))
 		full := filepath.Join(VerifDir(), "replays", fmt.Sprintf("%s-%d.full.json", prop, r.Seed))
 		_ = WriteReplay(full, rf)
-		minC, minRun, minV, n := Minimise(s, prop, r.Seed, tier, r.Choices(), b.viol.Inv, Known, 400, 90*time.Second)
+		minC, minRun, minV, n := Minimise(s, prop, r.Seed, tier, r.Choices(), b.viol.Inv, Known, 1500, 120*time.Second)
 		reportPath := full
 		if minRun != nil {
 			mrf := &ReplayFile{Property: prop, Seed: r.Seed, Tier: tier, Invariant: minV.Inv, Key: minV.Key, Message: minV.Msg,
